@@ -125,13 +125,16 @@ WriteOuts(C, mem, r) ==
       rangeBad == \/ i0 + r.n > T.len
                   \/ first + Len(r.vals) > i0 + r.n
       rangeOdd == r.n = 0 \/ Len(r.vals) = 0 \/ (sz # 0 /\ off % sz # 0)
-                  \/ (r.svc = "write" /\ Len(r.vals) # r.n)
+                  \/ (r.svc = "write" /\ Len(r.vals) > r.n)
+      \* PERMISSIVE(C05): a Write Tag that carries FEWER values than the count it declares is not one of the statement's invalid
+      \* requests: it may be refused, or carried out for the values it carries (what the code does)
+      short == IF r.svc = "write" /\ Len(r.vals) < r.n THEN { AnyFail(mem) } ELSE {}
       \* PERMISSIVE(C04/C05): a byte offset into variable-length (string) elements has no defined meaning (the code documents
       \* that it is unsupported): the request may fail, or be carried out as if the offset were 0
       strOff == IF sz = 0 /\ off # 0 THEN { AnyFail(mem) } ELSE {}
       conv == [ i \in 1 .. Len(r.vals) |-> Conv(r.typ, U, r.vals[i]) ]
       written == [ mem EXCEPT ![r.tag] = Replace(mem[r.tag], first, conv) ]
-  IN strOff \cup
+  IN strOff \cup short \cup
   IF MustRefuse(r.typ, U) THEN
        (IF rangeBad \/ rangeOdd THEN { Err(255, <<E2107>>, mem), Err(255, <<E2105>>, mem), AnyFail(mem) }
         ELSE { Err(255, <<E2107>>, mem) })
